@@ -37,6 +37,7 @@ const reflectPrelude = `(declare-fun rv_kind (Int) Int)
 (declare-fun kind_of_type (Int) Int)
 (declare-fun rt_ptrto (Int) Int)
 (declare-fun rt_elem (Int) Int)
+(declare-fun rt_implements (Int Int) Bool)
 (declare-fun rv_depth (Int) Int)
 (define-fun rv_wraps ((v Int)) Bool (and (or (= (rv_kind v) 20) (= (rv_kind v) 22)) (not (rv_isnil v))))
 (define-fun rv_valid ((v Int)) Bool (not (= (rv_kind v) 0)))
@@ -277,6 +278,15 @@ func (x *vc) reflectModel(fr *frame, st *state, callee *ssa.Function, args []Val
 		need("MapKeys", eq(kind(v), "21"), "receiver must be a Map")
 		r := x.freshVal("mapkeys", resT, st)
 		x.assume(st.guard, and(eq(app("sl_len", r.T), app("rv_len", v)), app(">", app("sl_arr", r.T), "0"), app(">=", app("sl_off", r.T), "0"), app("<=", app("sl_len", r.T), app("sl_cap", r.T))))
+		// the list is a new slice that only the caller holds: when the caller merely indexes it (range loop), no callee
+		// can ever reach it
+		if fr.top && x.curCall != nil {
+			if cv, ok := x.curCall.(ssa.Value); ok && onlyIndexed(cv) {
+				x.needLocalobj()
+				x.hasLocal = true
+				x.assume(st.guard, app("localobj", app("sl_arr", r.T)))
+			}
+		}
 		// documented: every key present in the map, once. Each element is a valid Value (interfaceable when the map
 		// is), MapIndex of it is valid, and the keys are pairwise different (rv_keyord: the key's position in the list).
 		if sl, ok := resT.Underlying().(*types.Slice); ok {
@@ -379,8 +389,22 @@ func (x *vc) reflectModel(fr *frame, st *state, callee *ssa.Function, args []Val
 		r := newRV("rvappendslice")
 		x.assume(st.guard, and(eq(kind(r.T), "23"), eq(app("rv_len", r.T), app("+", app("rv_len", v), app("rv_len", args[1].T))), eq(app("rv_canif", r.T), app("rv_canif", v))))
 		return r, true
-	case "reflect.Zero", "reflect.New", "reflect.Indirect":
-		return newRV("rvnew"), true
+	case "reflect.New":
+		// a non-nil pointer to a new zero value of the described type
+		r := newRV("rvnew")
+		x.needRType()
+		pt := app("rt_ptrto", app("rtype_id", args[0].T))
+		x.check(st, "rv:New", "", not(eq(args[0].T, "(mkiface 0 0)")), pos, "reflect.New: the type must not be nil")
+		x.assume(st.guard, and(eq(kind(r.T), "22"), app("rv_valid", r.T), app("rv_canif", r.T), not(app("rv_isnil", r.T)), eq(app("rv_type", r.T), pt), eq(app("kind_of_type", pt), "22")))
+		return r, true
+	case "reflect.Zero":
+		r := newRV("rvzero")
+		x.needRType()
+		x.check(st, "rv:Zero", "", not(eq(args[0].T, "(mkiface 0 0)")), pos, "reflect.Zero: the type must not be nil")
+		x.assume(st.guard, and(app("rv_valid", r.T), app("rv_canif", r.T), eq(app("rv_type", r.T), app("rtype_id", args[0].T))))
+		return r, true
+	case "reflect.Indirect":
+		return newRV("rvindirect"), true
 	case "reflect.TypeOf":
 		// nil for the nil interface, else the descriptor of the dynamic type
 		r := x.freshResult(st, resT, "rtypeof")
@@ -388,7 +412,13 @@ func (x *vc) reflectModel(fr *frame, st *state, callee *ssa.Function, args []Val
 		x.assume(st.guard, eq(eq(r.T, "(mkiface 0 0)"), eq(args[0].T, "(mkiface 0 0)")))
 		x.rtypeCanon(and(st.guard, not(eq(args[0].T, "(mkiface 0 0)"))), r.T, app("itag", args[0].T))
 		return r, true
-	case "reflect.SliceOf", "reflect.PtrTo", "reflect.PointerTo", "reflect.MapOf":
+	case "reflect.PtrTo", "reflect.PointerTo":
+		// the descriptor of *T
+		r := x.freshResult(st, resT, "rtype")
+		x.needRType()
+		x.rtypeCanon(st.guard, r.T, app("rt_ptrto", app("rtype_id", args[0].T)))
+		return r, true
+	case "reflect.SliceOf", "reflect.MapOf":
 		r := x.freshResult(st, resT, "rtype")
 		x.assume(st.guard, and(not(eq(app("itag", r.T), "0")), not(eq(app("ival", r.T), "0")))) // type constructors never return nil
 		return r, true
